@@ -39,6 +39,9 @@ func FromReplay(b []byte) (Program, error) {
 	if err := json.Unmarshal(sc.Shape, &sh); err != nil {
 		return p, err
 	}
+	if len(sh.Structs) == 0 {
+		return Program{}, nil // one of the fixed cases every emitted package carries: re-emit just those
+	}
 	if err := json.Unmarshal(sc.Request, &r); err != nil {
 		return p, err
 	}
